@@ -144,6 +144,9 @@ def realtime_plan(prop, pools, floors):
             if n == 0 and not replay and prop in ("C02", "C04", "C07", "C12"):
                 # large messages generated by the harness: 25 (thorough: 40) entities mentioning few trips and vehicles many times
                 gen = ["-gen", 60 if q else 600, "-genents", 25 if q else 40, "-seed", run.seed]
+                if prop == "C04" or not q:
+                    # one conflict-free message of 320 trips and 266 vehicles without descriptor, each serving one of the trips
+                    gen += ["-wide", 320]
             s = run.harness("realtime", ["-in", f, "-out", out, "-zones", zones, "-maxperm", maxperm] + gen, timeout=3000)
             run.load_inputs(out + ".inputs")
             run.validate_trace("RealtimeObs", out, s["cases"], timeout=3000)
@@ -237,7 +240,7 @@ def c13_plan(run, replay=None):
     if replay:
         replay_cases(run, replay, "cases.ndjson")
     else:
-        for sl in ["ids", "header", "stu", "events", "shift", "long", "durations", "vids", "vpos", "vrest", "vtrip"] + ([] if q else ["stu2", "hdr2"]):
+        for sl in ["ids", "header", "stu", "events", "shift", "long", "durations", "srEvents", "vids", "vpos", "vrest", "vtrip"] + ([] if q else ["stu2", "hdr2"]):
             run.tlc("TripHashMC", "C13_%s.cfg" % sl, "design", workers=4, cases_out="cases.ndjson", timeout=1500)
     s = run.harness("hash", ["-in", "cases.ndjson", "-out", "obs.ndjson"], timeout=3000)
     run.load_inputs("obs.ndjson.inputs")
@@ -305,44 +308,55 @@ def c18_plan(run, replay=None):
     s1 = run.harness("concurrent", ["-mode", "schedule", "-in", "sched.ndjson", "-out", "sched_obs.ndjson"], timeout=3000)
     run.load_inputs("sched_obs.ndjson.inputs")
     run.validate_trace("ParseConcurrentObs", "sched_obs.ndjson", s1["cases"], timeout=3000)
-    s2 = run.harness("concurrent", ["-mode", "race", "-in", "topo.ndjson", "-out", "race_obs.ndjson", "-g", 4, "-reps", 3 if q else 40],
-                     binary=race_bin, timeout=3000, env_extra={"GORACE": "exitcode=0 halt_on_error=0"}, allow_fail=True)
-    run.load_inputs("race_obs.ndjson.inputs")
-    if s2.get("_failed"):
-        # the Go runtime itself aborts the process on an unsynchronised concurrent map access
-        # (fatal error: concurrent map ...), or a panic inside the library kills the process (e.g. in a goroutine the
-        # library started itself); both are behaviour of the real code under concurrent use.  Anything else is ours.
-        err = s2["_stderr"]
-        m = re.search(r"^(panic: |fatal error: ).*$", err, re.M)
-        in_library = bool(m) and "github.com/jamespfennell/gtfs" in err[m.start():m.start() + 6000]
-        if not in_library:
-            raise vcore.Infra("race-mode harness failed:\n" + err[-3000:])
-        tops = re.findall(r"TOPOLOGY (\S+)", err)
-        case = tops[-1] if tops else "race-?"
-        tail = err[m.start():].splitlines()
-        fatal = [l.strip() for l in tail if "fatal error" in l or "panic:" in l or "jamespfennell/gtfs" in l][:12]
-        with open(os.path.join(run.work, "race_obs.ndjson"), "w") as f:
-            f.write(json.dumps({"g": "report", "case": case, "report": " | ".join(fatal)}) + "\n")
-        run.notes.append("the race-mode run was aborted (runtime fatal error or panic inside the library); remaining topologies were not run")
-    # what the race detector printed, attributed to the topology that was running
-    reports, cur = {}, None
-    for line in s2["_stderr"].splitlines():
-        m = re.match(r"TOPOLOGY (\S+)", line)
-        if m:
-            cur = m.group(1)
-            reports.setdefault(cur, [])
-            continue
-        if line.startswith("TOPOLOGY-END"):
-            cur = None
-            continue
-        if cur is not None and ("DATA RACE" in line or (reports[cur] and len(reports[cur]) < 40)):
-            reports[cur].append(line.strip())
-    with open(os.path.join(run.work, "race_obs.ndjson"), "a") as f:
-        for case, lines in reports.items():
-            f.write(json.dumps({"g": "report", "case": case, "report": " | ".join(lines)}) + "\n")
-    if "DATA RACE" in s2["_stderr"] and not any(reports.values()):
-        raise vcore.Infra("race detector reported a race outside any topology run")
-    run.validate_trace("ParseConcurrentObs", "race_obs.ndjson", s2["cases"], timeout=3000)
+    # several fresh processes, each starting with another topology: nothing has been parsed in the process before its
+    # first goroutines run, so lazily initialised package state is first touched under concurrency
+    for k in range(3 if q else 10):
+        s2 = run.harness("concurrent", ["-mode", "race", "-in", "topo.ndjson", "-out", "race_obs%d.ndjson" % k, "-g", 4, "-reps", (3 if q else 40) if k == 0 else 1,
+                                        "-rotate", (run.seed * 13 + k * 17) % 50],
+                         binary=race_bin, timeout=3000, env_extra={"GORACE": "exitcode=0 halt_on_error=0"}, allow_fail=True)
+        run.load_inputs("race_obs%d.ndjson.inputs" % k)
+        if s2.get("_failed"):
+            # the Go runtime itself aborts the process on an unsynchronised concurrent map access
+            # (fatal error: concurrent map ...), or a panic inside the library kills the process (e.g. in a goroutine the
+            # library started itself); both are behaviour of the real code under concurrent use.  Anything else is ours.
+            err = s2["_stderr"]
+            m = re.search(r"^(panic: |fatal error: ).*$", err, re.M)
+            in_library = bool(m) and "github.com/jamespfennell/gtfs" in err[m.start():m.start() + 6000]
+            if not in_library:
+                raise vcore.Infra("race-mode harness failed:\n" + err[-3000:])
+            tops = re.findall(r"TOPOLOGY (\S+)", err)
+            case = tops[-1] if tops else "race-?"
+            tail = err[m.start():].splitlines()
+            fatal = [l.strip() for l in tail if "fatal error" in l or "panic:" in l or "jamespfennell/gtfs" in l][:12]
+            with open(os.path.join(run.work, "race_obs%d.ndjson" % k), "w") as f:
+                f.write(json.dumps({"g": "report", "case": case, "report": " | ".join(fatal)}) + "\n")
+            run.notes.append("the race-mode run was aborted (runtime fatal error or panic inside the library); remaining topologies were not run")
+        # what the race detector printed, attributed to the topology that was running
+        # (before the first topology the harness parses every input once, sequentially, for reference: a race reported
+        # there is a race inside a single call, between goroutines the library started itself)
+        reports, cur = {"single-sequential-calls": []}, "single-sequential-calls"
+        for line in s2["_stderr"].splitlines():
+            m = re.match(r"TOPOLOGY (\S+)", line)
+            if m:
+                cur = m.group(1)
+                reports.setdefault(cur, [])
+                continue
+            if line.startswith("TOPOLOGY-END"):
+                cur = None
+                continue
+            if cur is None and "DATA RACE" in line:
+                cur = "between-topologies"
+                reports.setdefault(cur, [])
+            if cur is not None and ("DATA RACE" in line or (reports[cur] and len(reports[cur]) < 40)):
+                reports[cur].append(line.strip())
+        with open(os.path.join(run.work, "race_obs%d.ndjson" % k), "a") as f:
+            for case, lines in reports.items():
+                if not lines and case in ("single-sequential-calls", "between-topologies"):
+                    continue
+                f.write(json.dumps({"g": "report", "case": case, "report": " | ".join(lines)}) + "\n")
+        if "DATA RACE" in s2["_stderr"] and not any(reports.values()):
+            raise vcore.Infra("race detector reported a race outside any topology run")
+        run.validate_trace("ParseConcurrentObs", "race_obs%d.ndjson" % k, s2["cases"], timeout=3000)
     only(run, ["C18."])
     if not replay:
         run.floor("schedules", run.counters.get("schedules", 0), 3000)
